@@ -25,7 +25,7 @@ SPEC = {
     "min_evaluations": {"quick": 1500, "thorough": 15000},
     "must_reach": ["call_ok", "over_15_args", "txn_param_calls", "ref_param_calls", "wrong_txn_type_rejected", "contract_ok", "nonvoid_return_ok", "overriding_name_ok",
                    "same_sub_twice_ok", "grown_after_first_build"],
-    "shard_timeout": {"quick": 900, "thorough": 7200},
+    "shard_timeout": {"quick": 2400, "thorough": 14400},
 }
 
 TXN_KINDS = {"pay": 1, "keyreg": 2, "acfg": 3, "axfer": 4, "afrz": 5, "appl": 6, "txn": None}
